@@ -44,8 +44,9 @@ class World:
             traceless = bool(rng.integers(0, 2))
             basis = ('pauli',) if traceless else ('custom', gens.rotated_basis(rng, d, False),
                                                   False, 'Custom')
+            fts = ['const_sens'] + (['nontraceless_nop'] if rng.random() < 0.5 else [])
             self.descs = [gens.rand_desc(rng, d=d, n_dt=int(rng.integers(1, 3)), n_c=1, n_n=2,
-                                         basis=basis, features=['const_sens'])
+                                         basis=basis, features=fts)
                           for _ in range(2 if pc else 1)]
             if pc:
                 # same operators in both pulses so that pulse correlations are defined
